@@ -68,14 +68,14 @@ theorem eq_of_id_eq {ts : List Task} (hn : (ts.map (·.id)).Nodup) {a b : Task} 
 /-! ### the steps, unfolded with the facts -/
 
 theorem push_closed (s : St) (h : s.th.isOpen = false) : push s = { s with refused := s.refused + 1 } := by
-  simp [push, fact_viaSubmit, fact_noInline, submitTask, h, fact_refuses]
+  simp [push, fact_viaSubmit, fact_noInline, submitTask, submitAccept, h, fact_refuses]
 
 theorem push_open (s : St) (h : s.th.isOpen = true) :
     push s = { s with
       th := { s.th with jobId := s.th.jobId + 1, accepted := s.th.accepted ++ [s.th.jobId + 1],
                         pending := s.th.pending ++ [s.th.jobId + 1] },
       tasks := s.tasks ++ [⟨s.th.jobId + 1, .queued, false, [], 0⟩] } := by
-  simp [push, fact_viaSubmit, fact_noInline, submitTask, h, fact_accepts, nextId]
+  simp [push, fact_viaSubmit, fact_noInline, submitTask, submitAccept, submitStore, h, fact_accepts, nextId]
 
 theorem callback_isOpen (th : TH) (id : Int) : (callback th id).isOpen = th.isOpen := by
   unfold callback; split <;> rfl
@@ -90,33 +90,38 @@ theorem callback_pending_mem (th : TH) (id x : Int) (hx : x ∈ th.pending) (hne
 
 /-! ### the invariant -/
 
+/-- no flush began while a push was between `pool.submit` and its store, and no wait of flush timed out -/
+def Clean (s : St) : Prop := s.overlap = false ∧ s.timedOut = false
+
 structure Inv (f : Int → Outcome) (s : St) : Prop where
   jobnn : 0 ≤ s.th.jobId
   pos : ∀ t ∈ s.tasks, 0 < t.id ∧ t.id ≤ s.th.jobId
   nodup : (s.tasks.map (·.id)).Nodup
-  pend : ∀ t ∈ s.tasks, t.cb = false → t.id ∈ s.th.pending
+  pend : ∀ t ∈ s.tasks, t.cb = false → t.id ∈ s.th.pending ∨ t.id ∈ s.storing
   cbdone : ∀ t ∈ s.tasks, t.cb = true → t.fut = .done
   onceQ : ∀ t ∈ s.tasks, t.fut = .queued → t.ranOn = [] ∧ t.sends = 0
   onceR : ∀ t ∈ s.tasks, ∀ w, t.fut = .running w → t.ranOn = [w] ∧ t.sends = 0
   onceD : ∀ t ∈ s.tasks, t.fut = .done → t.ranOn.length = 1 ∧ t.sends = (f t.id).sends
-  closedW : ∀ todo, s.flush = .waiting todo → s.th.isOpen = false ∧ ∀ t ∈ s.tasks, t.fut ≠ .done → t.id ∈ todo
-  closedR : s.flush = .returned → s.th.isOpen = false ∧ ∀ t ∈ s.tasks, t.fut = .done
+  storingOpen : s.overlap = false → s.th.isOpen = false → s.storing = []
+  closedW : Clean s → ∀ todo, s.flush = .waiting todo →
+    s.th.isOpen = false ∧ ∀ t ∈ s.tasks, t.fut ≠ .done → t.id ∈ todo
+  closedR : Clean s → s.flush = .returned → s.th.isOpen = false ∧ ∀ t ∈ s.tasks, t.fut = .done
   noraise : ∀ e, s.flush ≠ .raised e
   caller : s.callerRuns = 0
 
 theorem inv_init (f : Int → Outcome) : Inv f St.init := by
-  refine ⟨by decide, ?_, by simp [St.init], ?_, ?_, ?_, ?_, ?_, ?_, ?_, ?_, rfl⟩ <;> simp [St.init]
+  refine ⟨by decide, ?_, by simp [St.init], ?_, ?_, ?_, ?_, ?_, ?_, ?_, ?_, ?_, rfl⟩ <;> simp [St.init]
 
 theorem inv_push (f : Int → Outcome) (s : St) (h : Inv f s) : Inv f (push s) := by
   cases ho : s.th.isOpen with
   | false =>
     rw [push_closed s ho]
-    exact ⟨h.jobnn, h.pos, h.nodup, h.pend, h.cbdone, h.onceQ, h.onceR, h.onceD, h.closedW, h.closedR, h.noraise,
+    exact ⟨h.jobnn, h.pos, h.nodup, h.pend, h.cbdone, h.onceQ, h.onceR, h.onceD, h.storingOpen, h.closedW, h.closedR, h.noraise,
       h.caller⟩
   | true =>
     rw [push_open s ho]
     have hj := h.jobnn
-    refine ⟨?_, ?_, ?_, ?_, ?_, ?_, ?_, ?_, ?_, ?_, h.noraise, h.caller⟩
+    refine ⟨?_, ?_, ?_, ?_, ?_, ?_, ?_, ?_, ?_, ?_, ?_, h.noraise, h.caller⟩
     · show 0 ≤ s.th.jobId + 1; omega
     · intro t ht
       show 0 < t.id ∧ t.id ≤ s.th.jobId + 1
@@ -132,9 +137,11 @@ theorem inv_push (f : Int → Outcome) (s : St) (h : Inv f s) : Inv f (push s) :
       have := h.pos t ht
       omega
     · intro t ht hcb
-      show t.id ∈ s.th.pending ++ [s.th.jobId + 1]
+      show t.id ∈ s.th.pending ++ [s.th.jobId + 1] ∨ t.id ∈ s.storing
       rcases List.mem_append.mp ht with ht | ht
-      · exact List.mem_append_left _ (h.pend t ht hcb)
+      · rcases h.pend t ht hcb with hp | hp
+        · exact Or.inl (List.mem_append_left _ hp)
+        · exact Or.inr hp
       · simp only [List.mem_singleton] at ht; subst ht; simp
     · intro t ht hcb
       rcases List.mem_append.mp ht with ht | ht
@@ -152,11 +159,14 @@ theorem inv_push (f : Int → Outcome) (s : St) (h : Inv f s) : Inv f (push s) :
       rcases List.mem_append.mp ht with ht | ht
       · exact h.onceD t ht hq
       · simp only [List.mem_singleton] at ht; subst ht; simp at hq
-    · intro todo hw
-      have := (h.closedW todo hw).1
+    · intro _ hcl
+      have : s.th.isOpen = false := hcl
       rw [ho] at this; simp at this
-    · intro hw
-      have := (h.closedR hw).1
+    · intro hc todo hw
+      have := (h.closedW hc todo hw).1
+      rw [ho] at this; simp at this
+    · intro hc hw
+      have := (h.closedR hc hw).1
       rw [ho] at this; simp at this
 
 theorem inv_start (f : Int → Outcome) (s : St) (id : Int) (w : Nat) (h : Inv f s) : Inv f (step f s (.start id w)) := by
@@ -169,7 +179,7 @@ theorem inv_start (f : Int → Outcome) (s : St) (id : Int) (w : Nat) (h : Inv f
     by_cases hq : t0.fut = .queued
     · rw [if_pos hq]
       have uniq : ∀ t ∈ s.tasks, t.id = id → t = t0 := fun t ht e => eq_of_id_eq h.nodup ht h0m (e.trans h0id.symm)
-      refine ⟨h.jobnn, ?_, ?_, ?_, ?_, ?_, ?_, ?_, ?_, ?_, h.noraise, h.caller⟩
+      refine ⟨h.jobnn, ?_, ?_, ?_, ?_, ?_, ?_, ?_, h.storingOpen, ?_, ?_, h.noraise, h.caller⟩
       · intro t' ht'
         obtain ⟨t, ht, rfl⟩ := mem_updTask.mp ht'
         have := h.pos t ht
@@ -206,16 +216,16 @@ theorem inv_start (f : Int → Outcome) (s : St) (id : Int) (w : Nat) (h : Inv f
         by_cases e : t.id = id
         · rw [if_pos e] at hq'; simp at hq'
         · rw [if_neg e] at hq' ⊢; exact h.onceD t ht hq'
-      · intro todo hw
-        refine ⟨(h.closedW todo hw).1, ?_⟩
+      · intro hc todo hw
+        refine ⟨(h.closedW hc todo hw).1, ?_⟩
         intro t' ht' hnd
         obtain ⟨t, ht, rfl⟩ := mem_updTask.mp ht'
         by_cases e : t.id = id
         · rw [if_pos e]
-          exact (h.closedW todo hw).2 t ht (by rw [uniq t ht e, hq]; simp)
-        · rw [if_neg e] at hnd ⊢; exact (h.closedW todo hw).2 t ht hnd
-      · intro hw
-        have := (h.closedR hw).2 t0 h0m
+          exact (h.closedW hc todo hw).2 t ht (by rw [uniq t ht e, hq]; simp)
+        · rw [if_neg e] at hnd ⊢; exact (h.closedW hc todo hw).2 t ht hnd
+      · intro hc hw
+        have := (h.closedR hc hw).2 t0 h0m
         rw [hq] at this; simp at this
     · rw [if_neg hq]; exact h
 
@@ -232,7 +242,7 @@ theorem inv_finish (f : Int → Outcome) (s : St) (id : Int) (h : Inv f s) : Inv
     | running w0 =>
       dsimp only
       have uniq : ∀ t ∈ s.tasks, t.id = id → t = t0 := fun t ht e => eq_of_id_eq h.nodup ht h0m (e.trans h0id.symm)
-      refine ⟨h.jobnn, ?_, ?_, ?_, ?_, ?_, ?_, ?_, ?_, ?_, h.noraise, h.caller⟩
+      refine ⟨h.jobnn, ?_, ?_, ?_, ?_, ?_, ?_, ?_, h.storingOpen, ?_, ?_, h.noraise, h.caller⟩
       · intro t' ht'
         obtain ⟨t, ht, rfl⟩ := mem_updTask.mp ht'
         have := h.pos t ht
@@ -265,15 +275,15 @@ theorem inv_finish (f : Int → Outcome) (s : St) (id : Int) (h : Inv f s) : Inv
           have := h.onceR t ht w0 (by rw [uniq t ht e]; exact hq)
           simp [this.1, this.2, e]
         · rw [if_neg e] at hq' ⊢; exact h.onceD t ht hq'
-      · intro todo hw
-        refine ⟨(h.closedW todo hw).1, ?_⟩
+      · intro hc todo hw
+        refine ⟨(h.closedW hc todo hw).1, ?_⟩
         intro t' ht' hnd
         obtain ⟨t, ht, rfl⟩ := mem_updTask.mp ht'
         by_cases e : t.id = id
         · rw [if_pos e] at hnd; simp at hnd
-        · rw [if_neg e] at hnd ⊢; exact (h.closedW todo hw).2 t ht hnd
-      · intro hw
-        have := (h.closedR hw).2 t0 h0m
+        · rw [if_neg e] at hnd ⊢; exact (h.closedW hc todo hw).2 t ht hnd
+      · intro hc hw
+        have := (h.closedR hc hw).2 t0 h0m
         rw [hq] at this; simp at this
 
 theorem inv_callback (f : Int → Outcome) (s : St) (id : Int) (h : Inv f s) : Inv f (step f s (.callback id)) := by
@@ -332,20 +342,20 @@ theorem inv_callback (f : Int → Outcome) (s : St) (id : Int) (h : Inv f s) : I
         by_cases e : t.id = id
         · rw [if_pos e] at hq' ⊢; exact h.onceD t ht hq'
         · rw [if_neg e] at hq' ⊢; exact h.onceD t ht hq'
-      · intro todo hw
-        refine ⟨by show (callback s.th id).isOpen = false; rw [callback_isOpen]; exact (h.closedW todo hw).1, ?_⟩
+      · intro hc todo hw
+        refine ⟨by show (callback s.th id).isOpen = false; rw [callback_isOpen]; exact (h.closedW hc todo hw).1, ?_⟩
         intro t' ht' hnd
         obtain ⟨t, ht, rfl⟩ := mem_updTask.mp ht'
         by_cases e : t.id = id
-        · rw [if_pos e] at hnd ⊢; exact (h.closedW todo hw).2 t ht hnd
-        · rw [if_neg e] at hnd ⊢; exact (h.closedW todo hw).2 t ht hnd
-      · intro hw
-        refine ⟨by show (callback s.th id).isOpen = false; rw [callback_isOpen]; exact (h.closedR hw).1, ?_⟩
+        · rw [if_pos e] at hnd ⊢; exact (h.closedW hc todo hw).2 t ht hnd
+        · rw [if_neg e] at hnd ⊢; exact (h.closedW hc todo hw).2 t ht hnd
+      · intro hc hw
+        refine ⟨by show (callback s.th id).isOpen = false; rw [callback_isOpen]; exact (h.closedR hc hw).1, ?_⟩
         intro t' ht'
         obtain ⟨t, ht, rfl⟩ := mem_updTask.mp ht'
         by_cases e : t.id = id
-        · rw [if_pos e]; exact (h.closedR hw).2 t ht
-        · rw [if_neg e]; exact (h.closedR hw).2 t ht
+        · rw [if_pos e]; exact (h.closedR hc hw).2 t ht
+        · rw [if_neg e]; exact (h.closedR hc hw).2 t ht
     · rw [if_neg hc]; exact h
 
 theorem not_done_pending (f : Int → Outcome) (s : St) (h : Inv f s) (t : Task) (ht : t ∈ s.tasks)
@@ -359,7 +369,7 @@ theorem inv_flushBegin (f : Int → Outcome) (s : St) (h : Inv f s) : Inv f (ste
   have key : Inv f { s with th := { s.th with isOpen := if flushCloses then false else s.th.isOpen },
                             flush := .waiting s.th.pending } := by
     refine ⟨h.jobnn, h.pos, h.nodup, h.pend, h.cbdone, h.onceQ, h.onceR, h.onceD, ?_, ?_, ?_, h.caller⟩
-    · intro todo hw
+    · intro hc todo hw
       simp only [Flush.waiting.injEq] at hw
       subst hw
       refine ⟨by simp [fact_flushCloses], ?_⟩
